@@ -53,6 +53,8 @@ def _worker(conn, modname, idx, tier, seed, replay_dir, mode, prefix=None, first
         elif mode == 'lemma':
             from . import lemmas
             rep = lemmas.run_lemma(inst)
+        elif mode == 'custom':
+            rep = inst.lemma['run'](inst, tier, seed, replay_dir)
         elif mode == 'probe':
             rep = {'key': inst.key, 'prefixes': I.probe_prefixes(inst), 'error': None}
         else:
@@ -190,7 +192,7 @@ def run_pool(modname, jobs, tier, seed, replay_dir, njobs, verbose):
     pending = []
     for idx, inst in jobs:
         mode = getattr(inst, 'mode', 'proof')
-        mode = mode if mode in ('bounded', 'lemma') else 'proof'
+        mode = mode if mode in ('bounded', 'lemma', 'custom') else 'proof'
         if mode == 'proof' and getattr(inst, 'shard_depth', 0) > 0:
             pending.append((idx, inst, 'probe', None, True))
         else:
@@ -458,6 +460,11 @@ def do_replay(prop, path):
         print('replay: instance %s not found' % payload['instance'])
         return 3
     inst = cand[0]
+    if getattr(inst, 'mode', '') == 'custom':
+        bad = inst.lemma['replay'](payload)
+        if bad:
+            print('VIOLATION property=%s replay=%s' % (prop, path))
+        return 1 if bad else 0
     env = payload.get('inputs') or payload.get('solver_model') or {}
     env = {k: v for k, v in env.items() if isinstance(v, (int, float))}
     nat = I.native_run(inst, env, payload.get('seed', 0), writable=payload.get('kind') == 'frame')
